@@ -59,6 +59,8 @@ type runShape struct {
 	fn, watcher                 *ssa.Function
 	ctxErr, canceled, ctx2, ctx *ssa.Alloc
 	problems                    map[string][]string
+	unrecognised                []string // the cancellation mechanism is not one of the analysed idioms: undecided
+	idiom                       string
 }
 
 func isCallTo(ins ssa.Instruction, name string) *ssa.CallCommon {
@@ -106,43 +108,69 @@ func (ld *Loaded) analyseRun() *runShape {
 				if isCallTo(i, "context.WithCancel") != nil {
 					withCancel = i
 				}
-			case *ssa.Select, *ssa.Send:
-				bad("Run/shared/protocol", "channel operation in Run: %s", ins)
+			case *ssa.Send:
+				bad("Run/shared/protocol", "channel send in Run: %s", ins)
+			case *ssa.Select:
+				if i.Blocking {
+					bad("Run/cancel/every-cycle", "Run blocks in a select: %s", ins)
+				}
 			case *ssa.UnOp:
 				if i.Op.String() == "<-" {
-					bad("Run/shared/protocol", "channel receive in Run: %s", ins)
+					bad("Run/cancel/every-cycle", "blocking channel receive in Run: %s", ins)
 				}
 			}
 		}
 	}
 	if goIns == nil {
-		// no watcher at all: cancellation cannot be noticed
-		bad("Run/cancel/every-cycle", "no watcher goroutine / no cancellation flag")
+		// no watcher: the loop may poll the context itself
+		ld.analyseRunPoll(rs, bad)
 		return rs
 	}
+	rs.idiom = "watcher goroutine + atomic flag"
 	mc, _ = goIns.Call.Value.(*ssa.MakeClosure)
 	if mc == nil {
-		bad("Run/shared/protocol", "go statement does not start a closure")
+		rs.unrecognised = append(rs.unrecognised, "the go statement does not start a closure")
 		return rs
 	}
 	rs.watcher = mc.Fn.(*ssa.Function)
+	// the cells are identified by their role, not by their names: the int32 cell
+	// is the flag, the error cell the published error, the context cell that is
+	// assigned the WithCancel context is the watcher's, another context cell the
+	// caller's
+	role := map[string]string{} // free variable name -> role
 	for k, bd := range mc.Bindings {
 		a, ok := bd.(*ssa.Alloc)
 		if !ok {
-			bad("Run/shared/protocol", "watcher captures a non-cell value %s", bd.Name())
+			rs.unrecognised = append(rs.unrecognised, "the watcher captures a non-cell value "+bd.Name())
 			continue
 		}
-		switch rs.watcher.FreeVars[k].Name() {
-		case "ctxErr":
-			rs.ctxErr = a
-		case "canceled":
-			rs.canceled = a
-		case "ctx2":
-			rs.ctx2 = a
-		case "ctx":
-			rs.ctx = a
+		et := a.Type().Underlying().(*types.Pointer).Elem()
+		fvn := rs.watcher.FreeVars[k].Name()
+		switch {
+		case types.Identical(et, types.Typ[types.Int32]) && rs.canceled == nil:
+			rs.canceled, role[fvn] = a, "canceled"
+		case et.String() == "error" && rs.ctxErr == nil:
+			rs.ctxErr, role[fvn] = a, "ctxErr"
+		case et.String() == "context.Context":
+			derived := false
+			for _, blk := range fn.Blocks {
+				for _, ins := range blk.Instrs {
+					if st, ok := ins.(*ssa.Store); ok && st.Addr == ssa.Value(a) {
+						if ex, ok := st.Val.(*ssa.Extract); ok && withCancel != nil && ex.Tuple == ssa.Value(withCancel) {
+							derived = true
+						}
+					}
+				}
+			}
+			if derived && rs.ctx2 == nil {
+				rs.ctx2, role[fvn] = a, "ctx2"
+			} else if rs.ctx == nil {
+				rs.ctx, role[fvn] = a, "ctx"
+			} else {
+				rs.unrecognised = append(rs.unrecognised, "the watcher captures a third context cell "+fvn)
+			}
 		default:
-			bad("Run/shared/protocol", "watcher captures %s (only ctx, ctx2, ctxErr, canceled are part of the verified protocol)", rs.watcher.FreeVars[k].Name())
+			bad("Run/shared/protocol", "watcher captures %s (only the two contexts, the published error and the flag are part of the verified protocol)", fvn)
 		}
 		if pt, ok := a.Type().Underlying().(*types.Pointer); ok {
 			if named, ok := pt.Elem().(*types.Named); ok && named.Obj().Name() == "CPU" {
@@ -151,13 +179,14 @@ func (ld *Loaded) analyseRun() *runShape {
 		}
 	}
 	if rs.canceled == nil || rs.ctxErr == nil || rs.ctx2 == nil {
-		bad("Run/shared/protocol", "watcher does not share the cells canceled / ctxErr / ctx2 with Run")
+		rs.unrecognised = append(rs.unrecognised, "the watcher does not share an int32 flag, an error cell and the derived context with Run")
 		return rs
 	}
 	// --- watcher body: single block: <-ctx2.Done(); ctxErr = ctx.Err(); atomic.StoreInt32(&canceled, 1)
 	w := rs.watcher
 	if len(w.Blocks) != 1 {
-		bad("Run/watcher/released", "the watcher has control flow (%d blocks): it must end after ctx2 is done", len(w.Blocks))
+		rs.unrecognised = append(rs.unrecognised, fmt.Sprintf("the watcher has control flow (%d blocks)", len(w.Blocks)))
+		return rs
 	}
 	storeErrAt, atomicStoreAt, recvAt := -1, -1, -1
 	for _, blk := range w.Blocks {
@@ -173,7 +202,7 @@ func (ld *Loaded) analyseRun() *runShape {
 					okDone := false
 					if c, ok := i.X.(*ssa.Call); ok && c.Call.IsInvoke() && c.Call.Method.Name() == "Done" {
 						if ld, ok := c.Call.Value.(*ssa.UnOp); ok {
-							if fv, ok := ld.X.(*ssa.FreeVar); ok && fv.Name() == "ctx2" {
+							if fv, ok := ld.X.(*ssa.FreeVar); ok && role[fv.Name()] == "ctx2" {
 								okDone = true
 							}
 						}
@@ -186,14 +215,14 @@ func (ld *Loaded) analyseRun() *runShape {
 				bad("Run/watcher/released", "the watcher performs a blocking channel operation (%s): it can outlive Run", ins)
 			case *ssa.Store:
 				if fv, ok := i.Addr.(*ssa.FreeVar); ok {
-					switch fv.Name() {
+					switch role[fv.Name()] {
 					case "ctxErr":
 						storeErrAt = k
 						okErr := false
 						if c, ok := i.Val.(*ssa.Call); ok && c.Call.IsInvoke() && c.Call.Method.Name() == "Err" {
 							if ld, ok := c.Call.Value.(*ssa.UnOp); ok {
-								if f2, ok := ld.X.(*ssa.FreeVar); ok && f2.Name() == "ctx" {
-									okErr = true
+								if f2, ok := ld.X.(*ssa.FreeVar); ok && (role[f2.Name()] == "ctx" || role[f2.Name()] == "ctx2") {
+									okErr = true // (the derived context reports the parent's error)
 								}
 							}
 						}
@@ -208,7 +237,7 @@ func (ld *Loaded) analyseRun() *runShape {
 				}
 			case *ssa.Call:
 				if cc := isCallTo(i, "sync/atomic.StoreInt32"); cc != nil {
-					if fv, ok := cc.Args[0].(*ssa.FreeVar); ok && fv.Name() == "canceled" {
+					if fv, ok := cc.Args[0].(*ssa.FreeVar); ok && role[fv.Name()] == "canceled" {
 						atomicStoreAt = k
 					}
 				} else if !i.Call.IsInvoke() {
@@ -423,6 +452,148 @@ func (ld *Loaded) analyseRun() *runShape {
 	return rs
 }
 
+// analyseRunPoll: Run without a watcher goroutine.  Recognised: the loop polls
+// the context itself - a non-blocking select on ctx.Done() or a call of
+// ctx.Err() - and returns ctx.Err().  Obligations (same names as for the
+// watcher idiom): every cycle that executes CPU code passes the poll; the
+// cancelled branch returns the context's error without executing CPU code
+// (a whole number of Steps); with no goroutine and no shared cell the
+// released / protocol obligations hold trivially.
+func (ld *Loaded) analyseRunPoll(rs *runShape, bad func(ob, msg string, a ...interface{})) {
+	fn := rs.fn
+	isCtx := func(v ssa.Value) bool { return v != nil && v.Type().String() == "context.Context" }
+	var pollBlk *ssa.BasicBlock
+	for _, blk := range fn.Blocks {
+		for _, ins := range blk.Instrs {
+			switch i := ins.(type) {
+			case *ssa.Select:
+				if !i.Blocking && len(i.States) == 1 {
+					if c, ok := i.States[0].Chan.(*ssa.Call); ok && c.Call.IsInvoke() && c.Call.Method.Name() == "Done" && isCtx(c.Call.Value) {
+						pollBlk = blk
+					}
+				}
+			case *ssa.Call:
+				if i.Call.IsInvoke() && i.Call.Method.Name() == "Err" && isCtx(i.Call.Value) && pollBlk == nil {
+					// ctx.Err() used as the poll (its result decides a branch)
+					for _, ref := range *i.Referrers() {
+						if bo, ok := ref.(*ssa.BinOp); ok && (bo.Op.String() == "!=" || bo.Op.String() == "==") {
+							pollBlk = blk
+						}
+					}
+				}
+			}
+		}
+	}
+	if pollBlk == nil {
+		bad("Run/cancel/every-cycle", "no watcher goroutine and no poll of the context: cancellation cannot be noticed")
+		return
+	}
+	rs.idiom = "context polled at the loop head"
+	// returns of the context's error
+	var cancelRets []*ssa.BasicBlock
+	for _, blk := range fn.Blocks {
+		for _, ins := range blk.Instrs {
+			if ret, ok := ins.(*ssa.Return); ok && len(ret.Results) == 1 {
+				v := ret.Results[0]
+				if c, ok := v.(*ssa.Call); ok && c.Call.IsInvoke() && c.Call.Method.Name() == "Err" && isCtx(c.Call.Value) {
+					cancelRets = append(cancelRets, blk)
+				}
+			}
+		}
+	}
+	if len(cancelRets) == 0 {
+		rs.unrecognised = append(rs.unrecognised, "the context is polled but no return hands back ctx.Err() directly")
+		return
+	}
+	// boundary: no CPU code between the poll and a cancelled return (every path
+	// from the poll block to the return block)
+	moduleCall := func(blk *ssa.BasicBlock) string {
+		for _, ins := range blk.Instrs {
+			if c, ok := ins.(*ssa.Call); ok {
+				if cal := c.Call.StaticCallee(); cal != nil && strings.HasPrefix(fullName(cal), modPath) && cal.Name() != "warnf" {
+					return cal.Name()
+				}
+			}
+		}
+		return ""
+	}
+	for _, rb := range cancelRets {
+		// blocks on a path pollBlk -> rb that do not pass pollBlk again
+		reach := map[*ssa.BasicBlock]bool{}
+		var fwd func(b *ssa.BasicBlock)
+		fwd = func(b *ssa.BasicBlock) {
+			for _, s2 := range b.Succs {
+				if s2 != pollBlk && !reach[s2] {
+					reach[s2] = true
+					fwd(s2)
+				}
+			}
+		}
+		fwd(pollBlk)
+		back := map[*ssa.BasicBlock]bool{rb: true}
+		var bwd func(b *ssa.BasicBlock)
+		bwd = func(b *ssa.BasicBlock) {
+			for _, p := range b.Preds {
+				if p != pollBlk && !back[p] {
+					back[p] = true
+					bwd(p)
+				}
+			}
+		}
+		bwd(rb)
+		if !reach[rb] {
+			bad("Run/cancel/boundary", "a return of ctx.Err() is not reached from the poll of the context")
+		}
+		for b2 := range reach {
+			if back[b2] {
+				if n := moduleCall(b2); n != "" {
+					bad("Run/cancel/boundary", "CPU code (%s) may run between the poll of the context and the cancelled return", n)
+				}
+			}
+		}
+	}
+	// every cycle through CPU code passes the poll
+	for _, sb := range fn.Blocks {
+		if moduleCall(sb) == "" || sb == pollBlk {
+			continue
+		}
+		vis := map[*ssa.BasicBlock]bool{}
+		var dfs func(b *ssa.BasicBlock) bool
+		dfs = func(b *ssa.BasicBlock) bool {
+			for _, s2 := range b.Succs {
+				if s2 == pollBlk {
+					continue
+				}
+				if s2 == sb {
+					return true
+				}
+				if !vis[s2] {
+					vis[s2] = true
+					if dfs(s2) {
+						return true
+					}
+				}
+			}
+			return false
+		}
+		if dfs(sb) {
+			bad("Run/cancel/every-cycle", "a cycle executes CPU code (block %d) without polling the context", sb.Index)
+		}
+	}
+	// the poll itself must not come after CPU code in its own block
+	seenCall := false
+	for _, ins := range pollBlk.Instrs {
+		if c, ok := ins.(*ssa.Call); ok {
+			if cal := c.Call.StaticCallee(); cal != nil && strings.HasPrefix(fullName(cal), modPath) {
+				seenCall = true
+			}
+		}
+		if _, ok := ins.(*ssa.Select); ok && seenCall {
+			rs.unrecognised = append(rs.unrecognised, "CPU code and the poll share a block")
+		}
+	}
+}
+
 func (r *Run) structural(ld *Loaded, name string, probs []string, okNote string) {
 	o := &OblResult{Name: "z80.(*CPU)." + name, Layer: "P", Backend: "SSA/CFG analysis"}
 	if len(probs) == 0 {
@@ -551,9 +722,18 @@ func init() {
 	}
 	checks["C13"] = func(ld *Loaded, r *Run) {
 		rs := ld.analyseRun()
+		if len(rs.unrecognised) > 0 {
+			// neither of the analysed cancellation mechanisms: these structural
+			// obligations cannot be stated for it - undecided, not a violation
+			r.Undecided = append(r.Undecided, "Run's cancellation mechanism is not one the structural analysis knows (watcher goroutine + atomic flag, or polling the context at the loop head): "+strings.Join(rs.unrecognised, "; "))
+		}
+		r.Notes["run_cancellation_idiom"] = rs.idiom
 		for _, ob := range []string{"Run/cancel/boundary", "Run/cancel/every-cycle", "Run/cancel/value", "Run/watcher/released", "Run/shared/protocol"} {
 			probs := rs.problems[ob]
 			probs = append(probs, rs.problems["Run/shape"]...)
+			if len(rs.unrecognised) > 0 && len(probs) == 0 {
+				continue
+			}
 			r.structural(ld, ob, probs, "")
 		}
 		r.checkStructure(ld, "z80.(*CPU).Step")
